@@ -521,7 +521,7 @@ func (fr *frame) visit(instr ssa.Instruction) continuation {
 		if ln < 0 || cp < ln {
 			w.rtPanic("makeslice: len out of range")
 		}
-		if cp > 1<<26 {
+		if cp > 1<<30 {
 			panic(pathAbort{"unsupported", fmt.Sprintf("make of %d elements", cp)})
 		}
 		elem := instr.Type().Underlying().(*types.Slice).Elem()
@@ -581,6 +581,9 @@ func (fr *frame) visit(instr ssa.Instruction) continuation {
 func (w *Worker) subArray(arr *Obj, off, n int) *Obj {
 	if off == 0 && n == arr.N {
 		return arr
+	}
+	if arr.Sparse != nil {
+		panic(pathAbort{"unsupported", "sub-array of a very large array"})
 	}
 	for i := 0; i < n; i++ {
 		w.kid(arr, off+i)
